@@ -40,6 +40,10 @@ struct Worker
   std::function<bool()> pred;
   // decision of the controller
   bool ok = true; // trylock success / poll ready
+  int syncCount = 0;
+  bool interrupted = false; // the pending 'signal' is delivered while blocked in this poll (EINTR)
+  int injectAt = 0;
+  std::function<void()> injectFn;
 };
 
 struct MutexInfo
@@ -123,6 +127,16 @@ void Park(Worker *w)
   sem_wait(&w->sem);
 }
 
+// a "signal handler" runs on the worker's own thread in front of its k-th scheduling point
+void MaybeInject(Worker *w)
+{
+  if(w->injectFn && ++w->syncCount == w->injectAt) {
+    auto fn = std::move(w->injectFn);
+    w->injectFn = nullptr;
+    fn();
+  }
+}
+
 uint64_t NextRand()
 {
   auto &g = G();
@@ -179,6 +193,13 @@ int spawn(std::string const &name, std::function<void()> body)
     sem_post(&G().ctl);
   });
   return raw->id;
+}
+
+void inject_at(int id, int k, std::function<void()> fn)
+{
+  auto &w = *G().workers.at(static_cast<size_t>(id));
+  w.injectAt = k;
+  w.injectFn = std::move(fn);
 }
 
 void mark(std::string const &text)
@@ -273,7 +294,22 @@ Outcome run()
       if(en) enabled.push_back(w);
     }
     if(!anyLive) return Outcome::Done;
-    if(enabled.empty()) return Outcome::Deadlock;
+    if(enabled.empty()) {
+      // a pending 'signal' for a thread that is blocked in poll for good is delivered now: EINTR
+      Worker *victim = nullptr;
+      for(auto &wp : g.workers)
+        if(wp->state == State::Parked && wp->kind == Kind::Poll && wp->injectFn) { victim = wp.get(); break; }
+      if(!victim) return Outcome::Deadlock;
+      victim->interrupted = true;
+      std::string ev = "T" + std::to_string(victim->id) + " poll";
+      for(nfds_t i = 0; i < victim->nfds; ++i) ev += " " + FdName(victim->fds[i].fd) + ":" + std::to_string(victim->fds[i].events);
+      Trace(ev + " t=" + (victim->timeout < 0 ? "inf" : "lim") + " -> eintr");
+      g.taken.push_back(-1);
+      victim->state = State::Running;
+      g.running.fetch_add(1);
+      sem_post(&victim->sem);
+      continue;
+    }
     size_t idx;
     if(g.prefixPos < g.prefix.size()) idx = static_cast<size_t>(g.prefix[g.prefixPos++]) % enabled.size();
     else idx = NextRand() % enabled.size();
@@ -342,6 +378,7 @@ int pthread_mutex_lock(pthread_mutex_t *m)
   static auto __pthread_mutex_lock = real<int (*)(pthread_mutex_t *)>("pthread_mutex_lock");
   auto *w = tlWorker;
   if(!w || !G().active) return __pthread_mutex_lock(m);
+  MaybeInject(w);
   w->kind = Kind::Lock;
   w->mtx = m;
   Park(w);
@@ -353,6 +390,7 @@ int pthread_mutex_trylock(pthread_mutex_t *m)
   static auto __pthread_mutex_trylock = real<int (*)(pthread_mutex_t *)>("pthread_mutex_trylock");
   auto *w = tlWorker;
   if(!w || !G().active) return __pthread_mutex_trylock(m);
+  MaybeInject(w);
   w->kind = Kind::TryLock;
   w->mtx = m;
   Park(w);
@@ -365,6 +403,7 @@ int pthread_mutex_unlock(pthread_mutex_t *m)
   static auto __pthread_mutex_unlock = real<int (*)(pthread_mutex_t *)>("pthread_mutex_unlock");
   auto *w = tlWorker;
   if(!w || !G().active) return __pthread_mutex_unlock(m);
+  MaybeInject(w);
   w->kind = Kind::Unlock;
   w->mtx = m;
   Park(w);
@@ -376,11 +415,20 @@ int poll(struct pollfd *fds, nfds_t n, int timeout)
   static auto fn = real<int (*)(pollfd *, nfds_t, int)>("poll");
   auto *w = tlWorker;
   if(!w || !G().active) return fn(fds, n, timeout);
+  MaybeInject(w);
   w->kind = Kind::Poll;
   w->fds = fds;
   w->nfds = n;
   w->timeout = timeout;
   Park(w);
+  if(w->interrupted) {
+    w->interrupted = false;
+    auto handler = std::move(w->injectFn);
+    w->injectFn = nullptr;
+    handler(); // the signal handler runs on this thread, then the interrupted poll returns EINTR
+    errno = EINTR;
+    return -1;
+  }
   if(w->ok) return fn(fds, n, 0);
   for(nfds_t i = 0; i < n; ++i) fds[i].revents = 0;
   if(timeout > 0) G().vnow.fetch_add(static_cast<long long>(timeout) * 1000000LL);
@@ -404,6 +452,7 @@ ssize_t sendto(int fd, void const *buf, size_t len, int flags, struct sockaddr c
   static auto fn = real<ssize_t (*)(int, void const *, size_t, int, sockaddr const *, socklen_t)>("sendto");
   auto *w = tlWorker;
   if(!w || !G().active) return fn(fd, buf, len, flags, addr, alen);
+  MaybeInject(w);
   w->kind = Kind::SendTo;
   w->fd = fd;
   Park(w);
@@ -415,6 +464,7 @@ ssize_t recvfrom(int fd, void *buf, size_t len, int flags, struct sockaddr *addr
   static auto fn = real<ssize_t (*)(int, void *, size_t, int, sockaddr *, socklen_t *)>("recvfrom");
   auto *w = tlWorker;
   if(!w || !G().active) return fn(fd, buf, len, flags, addr, alen);
+  MaybeInject(w);
   w->kind = Kind::RecvFrom;
   w->fd = fd;
   Park(w);
